@@ -129,5 +129,6 @@ func Concrete(x int) int             { return x }
 func ConcreteByte(x byte) byte       { return x }
 func ReadOnly(b []byte)              {}
 func Freeze(roots ...interface{})    {}
+func FreezeFresh(roots ...interface{}) {}
 func Unfreeze()                      {}
 func Symbolic() bool                 { return false }
